@@ -229,7 +229,7 @@ def finding_handlers(run, shoot):
     h = {k: generic for k in ("K_map_setonly_read", "K_map_ctor_func_nil_receiver", "K_map_ctor_ptr_conv",
                               "K_map_ctor_arg_unguarded", "K_map_dash_accessor", "K_map_ctor_from_tag",
                               "K_map_ctor_priority", "K_map_ctor_no_submap", "K_map_ctor_func_last",
-                              "K_map_promoted_accessor_nil")}
+                              "K_map_promoted_accessor_nil", "K_map_mapper_ptr_embedded")}
     h["K_map_state_leak"] = lambda f: mh.state_leak_outcome(run, shoot, f)
     return h
 
